@@ -43,6 +43,11 @@ def gen(ctx):
                 frames.append(F(10, rx.payload(rnd, rnd.randint(0, 125), "bin")))
         rx.randomize_encoding(rnd, frames, 0.2, 0.1)
         sts.append(frames)
+    # pings after a frame the receive call REFUSED (reserved bit, fragmented control frame, one-byte close body, unassigned
+    # opcode): the caller catches the protocol exception and keeps receiving — each later ping is still answered once
+    for bad in (F(1, b"x", rsv=4), F(10, b"q", fin=0), F(8, b"\x03"), F(3, b"")):
+        sts.append([F(9, b"a"), bad, F(9, b"b"), F(1, b"t"), F(9, b"c"), F(9, b"")])
+        sts.append([bad, F(9, b"after")])
     # "every ping": 1300 pings (and pongs) in a row inside one receive call, then the message
     sts.append([F(9, b"%d" % i) for i in range(1300)] + [F(1, b"done")])
     sts.append([F(rnd.choice([9, 10]), b"") for i in range(1300)] + [F(9, b"last"), F(2, b"done")])
